@@ -1,13 +1,13 @@
-\* C14 quick: 19 kind spellings/value forms (7 forms each of span and metric) x 5 extents (incl. empty and backwards ranges) x 11 metric value shapes x 3 aggregations x the 8 signal
-\* subsets = 25080 abstract events, each an initial state of the emit path; replayed over HTTP/protobuf, HTTP/JSON+gzip, gRPC+gzip.
+\* C14 quick: 19 kind spellings/value forms (7 forms each of span and metric) x 5 extents (incl. empty and backwards ranges) x 18 metric value classes (incl. zero / cancelling totals) x 3 aggregations x the 8 signal
+\* subsets = 41040 abstract events, each an initial state of the emit path; replayed over HTTP/protobuf, HTTP/JSON+gzip, gRPC+gzip.
 SPECIFICATION Spec
 CONSTANTS
     Kinds = {"absent", "other", "int", "SPAN", "padMetric", "span", "typedSpan", "spanTypedOwned", "spanStrOwned", "spanDisplay", "spanFromDisplay", "spanString", "metric", "typedMetric", "metricTypedOwned", "metricStrOwned", "metricDisplay", "metricFromDisplay", "metricString"}
     Extents = {"none", "point", "range", "emptyRange", "backRange"}
-    Vals = {"i64", "f64", "u64big", "seqi", "seqf", "emptySeq", "nestedSeq", "textSeq", "text", "bool", "missing"}
+    Vals = {"i64", "f64", "u64big", "seqi", "seqf", "i64zero", "f64zero", "f64negzero", "seqiZeros", "seqiCancel", "seqfZeros", "seqfCancel", "emptySeq", "nestedSeq", "textSeq", "text", "bool", "missing"}
     Aggs = {"count", "last", "missing"}
     Emit = TRUE
-INVARIANTS TypeOK RouteRefines DiscardCounted OnlyConfigured
+INVARIANTS TypeOK ZeroTotalsRouteLikeTwins RouteRefines DiscardCounted OnlyConfigured
 PROPERTY SentOnce
 ACTION_CONSTRAINT EmitReplay
 CHECK_DEADLOCK FALSE
